@@ -106,6 +106,17 @@ type ObjInv struct {
 	Line  int
 }
 
+// NonNil declares pointer/map/chan/func fields of a struct type that are set, to a non-nil value, only by the listed
+// constructors (checked by a package scan, obligation nonnil#Type); a load of such a field then yields a non-nil value.
+type NonNil struct {
+	Type   string
+	Fields []string
+	Ctors  []string
+	Tags   []string
+	File   string
+	Line   int
+}
+
 // Pred is a named list of clauses (a representation invariant) expanded textually where it is used.
 type Pred struct {
 	Name    string
@@ -131,6 +142,8 @@ type Program struct {
 	Preds     map[string]*Pred
 	Writers   []*WriterSpec
 	ObjInvs   []*ObjInv
+	NonNils   []*NonNil
+	nonNilKeys map[string]*NonNil
 	SerialAudit []string // tags of the package-wide serial-comparison audit
 	typeTags  map[string]int
 	tagTypes  map[int]types.Type
@@ -263,7 +276,7 @@ func (p *Program) parseContractFile(fname string, f *ast.File) error {
 		}
 	}
 	// join continuation lines: a line is a continuation unless it starts with a keyword
-	kw := regexp.MustCompile(`^(func|requires|ensures|assume|modifies|tags|loop|at|inline|trusted|safety|serialaudit|auditserial|interference|noverify|pred|clause|writers|proof|objinv)\b`)
+	kw := regexp.MustCompile(`^(func|requires|ensures|assume|modifies|tags|loop|at|inline|trusted|safety|serialaudit|auditserial|interference|noverify|pred|clause|writers|proof|objinv|nonnil)\b`)
 	var joined []line
 	for _, l := range lines {
 		if kw.MatchString(l.text) || len(joined) == 0 {
@@ -293,6 +306,28 @@ func (p *Program) parseContractFile(fname string, f *ast.File) error {
 					p.SerialAudit = append(p.SerialAudit, t)
 				}
 			}
+			continue
+		}
+		if head == "nonnil" {
+			// nonnil{TAGS} Type : field1 field2 ; constructors f1 f2
+			m := regexp.MustCompile(`^nonnil(\{[A-Z0-9, ]+\})?\s+(\w+)\s*:\s*([\w ]+);\s*constructors\s+([\w. ]+)$`).FindStringSubmatch(l.text)
+			if m == nil {
+				return bad("nonnil{TAGS} Type : field... ; constructors f...")
+			}
+			nn := &NonNil{Type: m[2], Fields: strings.Fields(m[3]), Ctors: strings.Fields(m[4]), File: fname, Line: l.ln}
+			for _, t := range strings.Split(strings.Trim(m[1], "{}"), ",") {
+				if t = strings.TrimSpace(t); t != "" {
+					nn.Tags = append(nn.Tags, t)
+				}
+			}
+			p.NonNils = append(p.NonNils, nn)
+			if p.nonNilKeys == nil {
+				p.nonNilKeys = map[string]*NonNil{}
+			}
+			for _, f := range nn.Fields {
+				p.nonNilKeys["F:"+nn.Type+"."+f] = nn
+			}
+			cur, curPred = nil, nil
 			continue
 		}
 		if head == "objinv" {
